@@ -246,4 +246,16 @@ theorem C05_t_conformant (t : Treemap) (h : Treemap.WFd Bitmap.WF t) (rest : Lis
 example : Treemap.serialize [(0, [{ key := 0, store := .array [1, 5] }]), (4294967295, [{ key := 65535, store := .array [65535] }])]
     = Spec.encode64 [1, 5, 18446744073709551615] := by decide
 
+/-! ### the treemap encoder the driver executes (fidelity audit): inner 32-bit streams through `Bitmap.serializeM` -/
+
+/-- **mirror (64-bit).** For a well-formed treemap the executed encoder does not panic in either build
+    configuration and emits the bytes of `Treemap.serialize` (= `Spec.encode64 (elems t)` by `C05_t_bytes`). -/
+theorem C05_t_serialize_mirror_eq (ovf : Bool) (t : Treemap) (h : Treemap.WFd Bitmap.WF t) :
+    Treemap.serializeM ovf t = some (Treemap.serialize t) :=
+  Fidelity.tserializeM_eq ovf t (fun p hp => wf_len_pos p.2 (h.parts p hp).2.1)
+
+theorem C05_t_bytes_mirror (ovf : Bool) (t : Treemap) (h : Treemap.WFd Bitmap.WF t) :
+    Treemap.serializeM ovf t = some (Spec.encode64 (Treemap.elems t)) := by
+  rw [C05_t_serialize_mirror_eq ovf t h, C05_t_bytes t h]
+
 end Roaring.C05
